@@ -38,8 +38,33 @@ opts_strategy = st.fixed_dictionaries(
         "omit": st.booleans(),
         "support": st.sampled_from(["as-needed", "always", "never", "only"]),
         "pp": st.sampled_from(["", "", "trim", "limit0", "trim+limit1"]),
+        # which definitions the run reads: "B" = the same namespaces holding OTHER types (every type renamed), so that the only
+        # files the two trees have in common are namespace-level files (Python __init__.py) and support files
+        "tree": st.sampled_from(["A", "A", "A", "B"]),
     }
 )
+
+
+def revision_b(u: dict) -> dict:
+    """The universe with every type renamed (<Name>Bee), references updated: same namespaces, disjoint type files."""
+    import copy
+
+    def walk(x):
+        if isinstance(x, dict):
+            if x.get("t") == "ref" and "full" in x:
+                x["full"] = x["full"] + "Bee"
+            for v in x.values():
+                walk(v)
+        elif isinstance(x, list):
+            for v in x:
+                walk(v)
+
+    b = copy.deepcopy(u)
+    for r in b["roots"]:
+        for td in r["types"]:
+            td["name"] = td["name"] + "Bee"
+            walk(td["body"])
+    return b
 
 
 def opt_argv(lang: str, o: dict) -> typing.List[str]:
@@ -63,9 +88,9 @@ def opt_argv(lang: str, o: dict) -> typing.List[str]:
 
 def content_key(o: dict) -> str:
     if o.get("api"):
-        return f"api|{o['omit']}"
+        return f"api|{o['omit']}|{o.get('tree', 'A')}"
     sup = "as-needed" if (o["omit"] and o["support"] == "always") else o["support"]
-    return f"{o['omit']}|{sup}|{o['pp']}|{bool(o.get('asserts'))}"
+    return f"{o['omit']}|{sup}|{o['pp']}|{bool(o.get('asserts'))}|{o.get('tree', 'A')}"
 
 
 def snap(d: pathlib.Path) -> typing.Dict[str, typing.Tuple[int, bytes]]:
@@ -85,6 +110,7 @@ class Env:
         self.lang = lang
         self.tmp = pathlib.Path(tempfile.mkdtemp(prefix="vf-c12-"))
         self.root = dsdlgen.materialise(u, self.tmp / "dsdl")[0]
+        self.roots = {"A": self.root, "B": dsdlgen.materialise(revision_b(u), self.tmp / "dsdlB")[0]}
         self.out = self.tmp / "out"
         self.out.mkdir()
         self.model: typing.Dict[str, typing.Dict[str, bytes]] = {}
@@ -106,7 +132,7 @@ class Env:
                 if o2.get("api"):
                     rc, se = self.run_api(o2)
                 else:
-                    rc, so, se = tool.run_sub(opt_argv(self.lang, o2) + ["--outdir", str(self.out), str(self.root)], fake_time=FAKE_T, drop_caps=True)
+                    rc, so, se = tool.run_sub(opt_argv(self.lang, o2) + ["--outdir", str(self.out), str(self.roots[o2.get("tree", "A")])], fake_time=FAKE_T, drop_caps=True)
                     self.runs += 1
                 if rc != 0:
                     raise core.HarnessError(f"model run failed: {se[-800:]}")
@@ -119,7 +145,7 @@ class Env:
     def run(self, o: dict, extra: typing.Sequence[str] = ()) -> typing.Tuple[int, str]:
         if o.get("api"):
             return self.run_api(o)
-        rc, so, se = tool.run_sub(opt_argv(self.lang, o) + list(extra) + ["--outdir", str(self.out), str(self.root)], fake_time=FAKE_T, drop_caps=True)
+        rc, so, se = tool.run_sub(opt_argv(self.lang, o) + list(extra) + ["--outdir", str(self.out), str(self.roots[o.get("tree", "A")])], fake_time=FAKE_T, drop_caps=True)
         self.runs += 1
         if rc == 97:
             raise core.HarnessError("capability drop ineffective: cannot observe permission bits as root")
@@ -134,7 +160,7 @@ class Env:
         code = (
             "import sys, pathlib, nunavut\n"
             "try:\n"
-            f"    nunavut.generate_types({API_LANG[self.lang]!r}, pathlib.Path({str(self.root)!r}), pathlib.Path({str(self.out)!r}), omit_serialization_support={bool(o['omit'])!r}, "
+            f"    nunavut.generate_types({API_LANG[self.lang]!r}, pathlib.Path({str(self.roots[o.get("tree", "A")])!r}), pathlib.Path({str(self.out)!r}), omit_serialization_support={bool(o['omit'])!r}, "
             f"allow_overwrite={not o['no_overwrite']!r}, allow_unregulated_fixed_port_id=True, include_experimental_languages=True)\n"
             "except PermissionError as e:\n"
             "    sys.stderr.write('PermissionError: %s' % e); sys.exit(3)\n"
@@ -206,6 +232,17 @@ DIRECTED_HISTORY_E = [
     {"api": True, "omit": True},
     {"api": True, "no_overwrite": True},
 ]
+# other definitions in the same namespaces: the second tree shares only namespace-level files (and support files) with the first
+DIRECTED_HISTORY_F = [
+    {"support": "never", "mode": 0o644},
+    {"support": "never", "no_overwrite": True, "tree": "B"},
+    {"support": "never", "mode": 0o444, "tree": "B"},
+    {"support": "never", "no_overwrite": True},
+    {"support": "only", "mode": 0o444},
+    {"support": "as-needed", "no_overwrite": True, "tree": "B"},
+    {"api": True, "tree": "B"},
+    {"api": True, "no_overwrite": True},
+]
 DIRECTED_HISTORY_C = [
     {"plant": "type", "content": "", "mode": 0o640},
     {"no_overwrite": True, "support": "never"},
@@ -243,11 +280,13 @@ def make_machine(ctx: core.Ctx):
             self.do_run(o)
 
         @precondition(lambda self: getattr(self, "last_opts", None) is not None and not self.last_opts.get("api"))
-        @rule(dim=st.sampled_from(["mode", "mode", "mode", "no_overwrite", "support", "pp", "omit"]), o=opts_strategy)
+        @rule(dim=st.sampled_from(["mode", "mode", "mode", "no_overwrite", "support", "pp", "omit", "tree"]), o=opts_strategy)
         def rerun_with_one_change(self, dim, o):
             """The previous invocation again with ONE option changed (same content + other --file-mode, same mode + other content ...)."""
             new = dict(self.last_opts)
             new[dim] = o[dim]
+            if dim == "tree":
+                new["tree"] = "B" if self.last_opts.get("tree", "A") == "A" else "A"
             if dim == "mode" and new["mode"] == self.last_opts["mode"]:
                 new["mode"] = MODES[(MODES.index(new["mode"]) + 1) % len(MODES)]
             if dim != "no_overwrite":
@@ -259,7 +298,7 @@ def make_machine(ctx: core.Ctx):
         def run_library_helper(self, o):
             """nunavut.generate_types(...) -- the documented library route -- over whatever the directory holds."""
             ctx.event("rule.library-helper")
-            self.do_run({"api": True, "omit": o["omit"], "no_overwrite": o["no_overwrite"], "mode": None, "support": "as-needed", "pp": ""})
+            self.do_run({"api": True, "omit": o["omit"], "no_overwrite": o["no_overwrite"], "mode": None, "support": "as-needed", "pp": "", "tree": o["tree"]})
 
         @precondition(lambda self: self.env is not None and any(self.env.out.rglob("*.*")))
         @rule(kind=st.sampled_from(["--list-outputs", "--dry-run", "--list-inputs"]), o=opts_strategy)
@@ -392,11 +431,11 @@ def run(ctx: core.Ctx):
     n = 20 if ctx.quick else 120
     machine = make_machine(ctx)
     # directed histories first (one per target): every option dimension is varied once on its own over a populated directory
-    for lang, history in [(l, h) for l in ("c", "py", "cpp") for h in (DIRECTED_HISTORY, DIRECTED_HISTORY_B, DIRECTED_HISTORY_C, DIRECTED_HISTORY_D, DIRECTED_HISTORY_E)]:
+    for lang, history in [(l, h) for l in ("c", "py", "cpp") for h in (DIRECTED_HISTORY, DIRECTED_HISTORY_B, DIRECTED_HISTORY_C, DIRECTED_HISTORY_D, DIRECTED_HISTORY_E, DIRECTED_HISTORY_F) if not (h is DIRECTED_HISTORY_F and l == "cpp")]:
         m = machine()
         m.env = Env(DIRECTED_UNIVERSE, lang)
         m.trace.append({"op": "init", "lang": lang, "directed": True})
-        base = {"mode": 0o644, "no_overwrite": False, "omit": False, "support": "as-needed", "pp": ""}
+        base = {"mode": 0o644, "no_overwrite": False, "omit": False, "support": "as-needed", "pp": "", "tree": "A"}
         try:
             for step in history:
                 if "plant" in step:
